@@ -36,25 +36,35 @@ EXPECTED_PINS = {
 }
 
 
+def _pat(obj, *path):
+    """pattern of a (possibly renamed / removed) regex: a missing name counts as a changed pin"""
+    try:
+        for a in path:
+            obj = getattr(obj, a)
+        return obj.pattern
+    except Exception:
+        return "<missing>"
+
+
 def current_pins():
     import http.client
     import urllib3.connection as ucon
     import urllib3.util.url as uurl
     pins = {
-        "token": ucon._CONTAINS_CONTROL_CHAR_RE.pattern,
-        "target": uurl._TARGET_RE.pattern,
-        "percent": uurl._PERCENT_RE.pattern,
-        "hc_method": http.client._contains_disallowed_method_pchar_re.pattern,
-        "hc_url": http.client._contains_disallowed_url_pchar_re.pattern,
-        "hc_name": http.client._is_legal_header_name.__self__.pattern,
-        "hc_value": http.client._is_illegal_header_value.__self__.pattern,
+        "token": _pat(ucon, "_CONTAINS_CONTROL_CHAR_RE"),
+        "target": _pat(uurl, "_TARGET_RE"),
+        "percent": _pat(uurl, "_PERCENT_RE"),
+        "hc_method": _pat(http.client, "_contains_disallowed_method_pchar_re"),
+        "hc_url": _pat(http.client, "_contains_disallowed_url_pchar_re"),
+        "hc_name": _pat(http.client, "_is_legal_header_name", "__self__"),
+        "hc_value": _pat(http.client, "_is_illegal_header_value", "__self__"),
     }
     try:
         import urllib3.http2.connection as h2c
-        pins["h2_name"] = h2c.RE_IS_LEGAL_HEADER_NAME.pattern
-        pins["h2_value"] = h2c.RE_IS_ILLEGAL_HEADER_VALUE.pattern
     except Exception:
-        pass
+        return pins
+    pins["h2_name"] = _pat(h2c, "RE_IS_LEGAL_HEADER_NAME")
+    pins["h2_value"] = _pat(h2c, "RE_IS_ILLEGAL_HEADER_VALUE")
     return pins
 
 
